@@ -6,7 +6,7 @@ is never part of a theorem."""
 import json, os, re
 import mtgen
 
-LETTERS7 = ["A", "B", "C", "D", "F", "K", "L"]
+LETTERS7 = ["A", "B", "C", "D", "F", "G", "H", "K", "L", "P"]
 LETTERS26 = [chr(65 + i) for i in range(26)]
 
 
@@ -23,6 +23,35 @@ def harvest_pool(layouts, seeds):
             for tag, content in mtgen.tokens(sp[1]):
                 for ty, lk in candidates(fl, tag):
                     pool.setdefault((ty, lk), set()).add(content)
+    # a content seen under one family is a content of the same tag under every family that has that option
+    # (families are enums over the same payload types; type aliases included)
+    by_tag = {}
+    for c, lst in seeds.items():
+        for name, text in lst:
+            sp = mtgen.split_message(text)
+            if sp:
+                for tag, content in mtgen.tokens(sp[1]):
+                    by_tag.setdefault(tag, set()).add(content)
+    try:      # and the hand-written examples of the documented formats, for options no shipped scenario uses
+        ex = json.load(open("/verif/spec/field_examples.json"))
+        for tag, lst in ex.items():
+            if not tag.startswith("_"):
+                by_tag.setdefault(tag, set()).update(lst[:3])
+    except Exception:
+        pass
+    try:
+        fam = json.load(open(os.path.join("/verif/coq/gen", "families.json")))
+        alias = dict(fam.get("_aliases", []))
+        for T, ss in layouts.items():
+            for st in flatten(ss, []):
+                if st["op"] in ("reqv", "optv"):
+                    f = fam.get(alias.get(st["fam"], st["fam"]))
+                    for arm in (f or {}).get("arms", []):
+                        letter = arm[0] or ""
+                        for content in sorted(by_tag.get(st["base"] + letter, []))[:6]:
+                            pool.setdefault((st["fam"], "=" + letter), set()).add(content)
+    except Exception:
+        pass
     return {k: sorted(v) for k, v in pool.items()}
 
 
